@@ -1,6 +1,6 @@
 SPECIFICATION Spec
-CONSTANTS Ids = {1, 2, 3, 5}
-  AdvMax = 2
+CONSTANTS Ids = {1, 2, 3}
+  AdvMax = 1
   MaxSteps = 5
 INVARIANTS CurMatches WithinLimit StartedAreOddAndCovered GoAwayCovers
 PROPERTIES NoStartAfterConnError StartOnlyNewIncreasing NoStartAfterGoAway
